@@ -23,6 +23,22 @@ import ast
 from sa.model import AnalysisError, Finding, FunctionInfo, enclosing_fn, loc, src
 from sa.rules import nodeflow
 
+
+def _dnf(test, polarity):
+    """alternatives (lists of (atom, polarity)) under which `test` has truth value `polarity`"""
+    if isinstance(test, ast.UnaryOp) and isinstance(test.op, ast.Not):
+        return _dnf(test.operand, not polarity)
+    if isinstance(test, ast.BoolOp):
+        conj = isinstance(test.op, ast.And) == bool(polarity)
+        parts = [_dnf(v, polarity) for v in test.values]
+        if conj:
+            out = [[]]
+            for p in parts:
+                out = [a + b for a in out for b in p][:64]
+            return out
+        return [alt for p in parts for alt in p][:64]
+    return [[(test, polarity)]]
+
 def _accepted_reason(fi, c, holder):
     """Semantic exceptions (each a construct class with its reason), not text matches."""
     # (B) `default or simple_types[typ]`: a falsy default is replaced by the zero value of the same declared type
@@ -130,7 +146,42 @@ def rule_falsy(prog, rep, tier, scope=None):
                         "FALSY", where, construct,
                         "the default value %s (%s) is used as a truth test in `%s`: an explicit default of 0, 0.0, False or '' - all in the supported domain - is "
                         "treated as 'no default' and is dropped or replaced" % (src(c, 50), why, src(holder, 90)), loc(prog, c)))
-    rep.ob("FALSY", "%d functions, %d reads of a default value, %d used as truth tests" % (len(fns), n_sources, n_tests), "holds", "", "every truth test is listed above")
+    # (None-marker clause) `None` as a *value* is in the domain (`def f(a=None)`, `return None`): the IR carries it as the None marker
+    # (`"None"`, the code-quoted form).  A conditional expression that yields nothing (the constant None: no statement, no node) exactly when
+    # the default is a member of a collection holding such a marker treats the explicit value as "no default".  Membership tests whose
+    # member arm still produces something (`set_value(None)`) are the accepted idiom.
+    n_member = 0
+    for fi in fns:
+        dn = _default_names(prog, fi)
+        for ie in ast.walk(fi.node):
+            if not isinstance(ie, ast.IfExp) or enclosing_fn(ie) is not fi:
+                continue
+            for arm, pol in ((ie.body, True), (ie.orelse, False)):
+                for alt in _dnf(ie.test, pol):
+                    for atom, p_ in alt:
+                        if not (isinstance(atom, ast.Compare) and len(atom.ops) == 1 and isinstance(atom.ops[0], (ast.In, ast.NotIn))):
+                            continue
+                        d = atom.left
+                        if not (_is_default_read(d) or (isinstance(d, ast.Name) and d.id in dn)):
+                            continue
+                        coll = atom.comparators[0]
+                        exprs = [coll]
+                        for nm in [x for x in ast.walk(coll) if isinstance(x, ast.Name)]:
+                            b = prog.lookup(nm.id, atom)   # a collection kept at module level (`none_types`), also as part of `none_types + ("",)`
+                            if b[0] == "value":
+                                exprs.append(b[2])
+                        markers = sorted({x.value for e_ in exprs for x in ast.walk(e_) if isinstance(x, ast.Constant) and isinstance(x.value, str) and x.value.strip()})
+                        if not markers:
+                            continue
+                        n_member += 1
+                        member = isinstance(atom.ops[0], ast.In) == bool(p_)   # on this alternative the default IS one of the markers
+                        if member and isinstance(arm, ast.Constant) and arm.value is None and len(alt) == 1:
+                            rep.violation(Finding(
+                                "FALSY", fi.qualname, "none-marker-as-absent:%s" % src(atom, 60),
+                                "`%s` yields nothing (None) whenever %s is one of %s: an explicit None - `return None`, `=None`, carried in the IR as the None marker %r - "
+                                "is treated as 'no default' and is not written" % (src(ie, 90), src(d, 40), src(atom.comparators[0], 30), markers[0]), loc(prog, atom)))
+    rep.ob("FALSY", "%d functions, %d reads of a default value, %d used as truth tests, %d membership test(s) against a collection with a None marker"
+           % (len(fns), n_sources, n_tests, n_member), "holds", "", "every truth test is listed above; no membership test makes a conditional expression yield nothing")
     if n_sources < 5:
         raise AnalysisError("FALSY: only %d reads of a default value found in scope; the source recogniser is evidently incomplete" % n_sources)
 
